@@ -32,7 +32,11 @@ META = dict(
          "TLC decides each step from the logged pre-state. Bounded; object-level sessions, not whole backtests.",
     note="Trusted: TLC, the encoder, the object-level session, the setattr wrappers of the in-vivo recorder. Duplicate "
          "and late calls are injected at object level; the real backtests contribute every order call the simulators "
-         "and the Strategy class make themselves (few of them are duplicates).",
+         "and the Strategy class make themselves; the policies provoke jesse's own calls on final orders (two MARKET "
+         "exits pending together: the flush executes the one that the close cancelled; a MARKET exit submitted in a "
+         "position hook during matching: executed by the matching loop and again by the flush). The other call sites "
+         "(matching loops, Sandbox.cancel_all_orders, the modification handler) test is_active before they call. "
+         "Strategy hooks and trade boundaries (after reset_trade_orders) are observation points for ActiveReported.",
     design_ref="4/C05")
 
 
@@ -84,6 +88,7 @@ def run(ctx):
                 raise Machinery("vacuity: action %s never taken in %s" % (a, label))
     # ---------------------------------------------------------------- R + T per kind
     total = bad_total = n_r = n_t = n_v = n_vev = 0
+    vivo_dups, vivo_obs = {}, [0]
     kinds = {}
     for kind in ("futures", "spot"):
         traces, hists, tid = [], {}, 0
@@ -105,9 +110,15 @@ def run(ctx):
         n_t += len(ttr)
         traces += ttr
         from ..drivers import acct_vivo
-        vtr = acct_vivo.run_many(acct_vivo.specs(kind, ctx.pick(5, 100), ctx.seed + 1, first_id=tid + len(ttr) + 1))
+        vtr = acct_vivo.run_many(acct_vivo.specs(kind, ctx.pick(5, 100), ctx.seed + 1, first_id=tid + len(ttr) + 1,
+                                                   minutes=ctx.pick((60, 90), (120, 180))))
         n_v += len(vtr)
         n_vev += sum(len(t["ev"]) for t in vtr)
+        for t in vtr:
+            for k in acct.fill_kinds(kind, t):
+                if k.startswith("duplicate"):
+                    vivo_dups[k] = vivo_dups.get(k, 0) + 1
+            vivo_obs[0] += sum(1 for e in t["ev"] if e["k"] == "obs")
         traces += vtr
         ctx.log("V %s: %d backtests, %d order events" % (kind, len(vtr), sum(len(t["ev"]) for t in vtr)))
         verdicts, results, _ = acct.validate(kind, traces, ctx.sub("v-" + kind), parts_total=ctx.pick(8, 14), proj="life")
@@ -138,6 +149,8 @@ def run(ctx):
     ctx.coverage.update({
         "traces_validated_against_impl": total, "transitions_replayed": n_r, "random_histories": n_t,
         "in_vivo_backtests": n_v, "in_vivo_order_events": n_vev,
+        "in_vivo_calls_on_final_orders_made_by_jesse_itself": vivo_dups,
+        "in_vivo_observation_points_between_calls": vivo_obs[0],
         "rejected_traces": bad_total, "fill_effects_and_special_cases_seen": kinds, "samples": samples,
         "rule": "R: one trace per transition of the Dups instances of Futures.tla / Spot.tla (shortest witness, last call "
                 "judged from the logged pre-state). T: random histories of 30-60 operations with 30% duplicate / late "
